@@ -76,7 +76,12 @@ fn main() {
         }
         "life" => {
             let mut rec = rec::Recorder::to_file(&out);
-            life::run(seed, &get("paths", ""), get("sample", "50").parse().unwrap(), &mut rec);
+            let sweep: usize = get("sweep", "0").parse().unwrap();
+            if sweep > 0 {
+                life::bundle_sweep(seed, sweep, &mut rec);
+            } else {
+                life::run(seed, &get("paths", ""), get("sample", "50").parse().unwrap(), &mut rec);
+            }
             eprintln!("{}", serde_json::to_string(&rec.stats_json()).unwrap());
             if let Some(p) = m.get("stats") {
                 std::fs::write(p, serde_json::to_string_pretty(&serde_json::json!({"stats": rec.stats_json(), "samples": rec.samples})).unwrap()).unwrap();
